@@ -45,12 +45,12 @@ func symd(v ssa.Value, d int) string {
 		return "func:" + fnName(x)
 	case *ssa.FieldAddr:
 		_, f := fieldVarOf(x)
-		return "&" + symd(x.X, d+1) + "." + f.Name()
+		return "&" + strings.TrimPrefix(symd(x.X, d+1), "&") + "." + f.Name()
 	case *ssa.Field:
 		_, f := fieldVarOf(x)
 		return symd(x.X, d+1) + "." + f.Name()
 	case *ssa.IndexAddr:
-		return "&" + symd(x.X, d+1) + "[" + symd(x.Index, d+1) + "]"
+		return "&" + strings.TrimPrefix(symd(x.X, d+1), "&") + "[" + symd(x.Index, d+1) + "]"
 	case *ssa.Index:
 		return symd(x.X, d+1) + "[" + symd(x.Index, d+1) + "]"
 	case *ssa.UnOp:
@@ -71,6 +71,9 @@ func symd(v ssa.Value, d int) string {
 	case *ssa.Call:
 		if b, ok := x.Call.Value.(*ssa.Builtin); ok && (b.Name() == "len" || b.Name() == "cap") && len(x.Call.Args) == 1 {
 			return b.Name() + "(" + symd(x.Call.Args[0], d+1) + ")"
+		}
+		if cal := staticCallee(&x.Call); cal != nil && identityFns[cal] && len(x.Call.Args) > 0 {
+			return symd(x.Call.Args[0], d+1)
 		}
 		return "%" + x.Name()
 	case *ssa.Slice:
@@ -817,3 +820,61 @@ func recvArg(c *ssa.CallCommon) ssa.Value {
 }
 
 func sortStrings(s []string) { sort.Strings(s) }
+
+// identityFns: repository functions known to return their first argument on
+// every path (e.g. mlink's checkValid); sym looks through calls to them.
+var identityFns = map[*ssa.Function]bool{}
+
+// returnsParam0: every return of fn returns its first parameter.
+func returnsParam0(fn *ssa.Function) bool {
+	if fn == nil || fn.Blocks == nil || len(fn.Params) == 0 {
+		return false
+	}
+	n := 0
+	ok := true
+	allInstrs(fn, func(in ssa.Instruction) {
+		if r, isRet := in.(*ssa.Return); isRet {
+			n++
+			if len(r.Results) != 1 || r.Results[0] != fn.Params[0] {
+				ok = false
+			}
+		}
+	})
+	return ok && n > 0
+}
+
+// returnsFresh: every non-nil return of fn (result index idx) is an allocation
+// made in fn, or the result of a call to another returnsFresh function.
+func returnsFresh(fn *ssa.Function, depth int) bool {
+	fn = origin(fn)
+	if fn == nil || fn.Blocks == nil || depth > 4 {
+		return false
+	}
+	n := 0
+	ok := true
+	allInstrs(fn, func(in ssa.Instruction) {
+		r, isRet := in.(*ssa.Return)
+		if !isRet || len(r.Results) == 0 {
+			return
+		}
+		n++
+		switch x := r.Results[0].(type) {
+		case *ssa.Alloc:
+			if !x.Heap {
+				ok = false
+			}
+		case *ssa.Const:
+			if x.Value != nil {
+				ok = false
+			}
+		case *ssa.Call:
+			cal := staticCallee(&x.Call)
+			if cal == nil || cal == fn || !returnsFresh(cal, depth+1) {
+				ok = false
+			}
+		default:
+			ok = false
+		}
+	})
+	return ok && n > 0
+}
